@@ -1,7 +1,7 @@
 """C26 — whenever object placement succeeds, the final grid slices satisfy every constraint.
 
 Engine E2: bounded exhaustive enumeration of constraint systems (volume + objects a,b[,c] + every multiset of <= k
-entries of an explicit ~70-element alphabet covering all five constraint kinds and own sizes/positions), each resolved
+entries of an explicit ~72-element alphabet covering all five constraint kinds and own sizes/positions), each resolved
 by the real `resolve_object_constraints` (and, for the smallest systems, by `place_objects`) and re-evaluated by the
 numpy oracle `mc.oracles.placement.judge`, written from the property statement and the docstrings.
 """
@@ -10,7 +10,7 @@ LEVEL = "exploration"
 MANIFEST = {
     "engine": "E2-enum",
     "technique": "bounded exhaustive enumeration of constraint systems (all multisets of <=2/<=3 constraints from an explicit alphabet) against an independent constraint re-evaluation",
-    "text": "Every constraint system of the bounded space (volume 6x7x8, objects with own grid/real sizes and positions, every multiset of at most 2 (quick) / 3 (thorough) entries of a 70-element alphabet of position, size, extension, grid- and real-coordinate constraints, on each axis, on uniform and non-uniform grids) is resolved by the real resolver; for every successful resolution an independent numpy oracle re-evaluates containment, positive size, every constraint on the final slices (anchors within half a cell, documented length and nearest-edge snapping) and that untouched axes span the volume.",
+    "text": "Every constraint system of the bounded space (volume 6x7x8, objects with own grid/real sizes and positions, every multiset of at most 2 (quick) / 3 (thorough) entries of a 72-element alphabet of position, size, extension, grid- and real-coordinate constraints, on each axis, on uniform and non-uniform grids) is resolved by the real resolver; for every successful resolution an independent numpy oracle re-evaluates containment, positive size, every constraint on the final slices (anchors within half a cell, documented length and nearest-edge snapping) and that untouched axes span the volume.",
     "note": "Real-valued margins/offsets/coordinates come from a finite alphabet (edge hits, ties, non-integer multiples, out-of-domain values, one VERIF_SEED-derived value per kind). partial_real_position is judged only when it is the sole positional information of an object whose size is fixed independently; otherwise a mismatch is counted as an observation, not a violation. Systems with <=1 entry are also pushed through place_objects.",
 }
 RULE = (
